@@ -424,6 +424,11 @@ def run_akai_image(ctx, samples, what):
     by_name = {}
     for rel in reported:
         by_name[os.path.basename(rel)[:-4]] = rel
+    failed = {}
+    for ln in r.out.splitlines():
+        if ln.startswith("Failed to export ") and "(" in ln:
+            rel = ln[len("Failed to export "):ln.index(" (")]
+            failed[os.path.basename(rel)[:-4]] = _cls_name(ln[ln.index(" (") + 2:].split(":")[0].rstrip(")"))
     descs = [akai_expected_desc(s) for s in samples]
     mod = M.call_batch("build_wav", [[enc_desc(d), s["pcm"]] for d, s in zip(descs, samples)])
     ctx.require("every reported path is a written file, reported once", {"what": what}, len(set(reported)) == len(reported) and all(p in tree for p in reported),
@@ -442,19 +447,33 @@ def run_akai_image(ctx, samples, what):
             ctx.agree("akai_export", key, ("ok", b), mres)
             good.append((key, b))
         else:
-            # the export stopped here: the model must predict a failing build of the same class
+            # not reported: since fix d81c645 the export goes on and prints "Failed to export <path> (<Class>: ...)";
+            # the model must predict a failing build of the same class
             ctx.count("akai_export_fails", repr(key), nontrivial=True)
-            ctx.agree("akai_export", key, ("err", _cls(r.exc)), mres)
-            ctx.require("a sample that is not reported is one whose header cannot be encoded (unity note < 0)", key, expect_fail(s) and r.exc is not None,
-                        {"exc": r.exc_name, "expected_to_fail": expect_fail(s)})
-            rest = samples[i + 1:]
-            break
-    else:
-        ctx.require("export of encodable samples finishes without an exception", {"what": what}, r.exc is None, r.exc_name)
+            fcls = failed.get(name)
+            ctx.agree("akai_export", key, ("err", fcls), mres)
+            ctx.require("a sample that is not reported is one whose header cannot be encoded (unity note < 0)", key, expect_fail(s) and fcls is not None,
+                        {"failed_line_class": fcls, "expected_to_fail": expect_fail(s)})
+            ctx.require("a sample that failed to export leaves no file behind", key, not any(os.path.basename(p_)[:-4] == name for p_ in tree), sorted(tree)[:5])
+    ctx.require("export finishes without an exception", {"what": what}, r.exc is None, r.exc_name)
     chk = M.call_batch("wav_check", [b for _, b in good])
     for (key, b), cv in zip(good, chk):
         ctx.agree("wav_check", key, True, cv == 1)
     return rest
+
+
+def _cls_name(n):
+    """exception class NAME (as printed) -> the model's class name (via the MRO)"""
+    import builtins
+    import construct.core as CC
+    c = getattr(CC, n, None) or getattr(builtins, n, None)
+    if c is None:
+        return n
+    names = set(M.EXN.values())
+    for k in c.__mro__:
+        if k.__name__ in names:
+            return k.__name__
+    return n
 
 
 def _cls(e):
